@@ -106,11 +106,142 @@ void run_csr()
   }
 }
 
+
+template<typename DT, int BH, int BW>
+void run_bcsr()
+{
+  typedef LAFEM::SparseMatrixBCSR<DT, Index, BH, BW> MT;
+  Index md = Index(g_maxdim > 2 ? 2 : g_maxdim);
+  for(Index rows = 1; rows <= md; ++rows) for(Index cols = 1; cols <= md; ++cols)
+    for(auto& p : all_patterns(rows, cols, Index(g_maxnnz > 3 ? 3 : g_maxnnz)))
+    {
+      Dense<DT> D; MT A = make_bcsr<DT, Index, BH, BW, MT>(rows, cols, p, "a", &D);
+      auto vals = [&] { std::vector<DT> v; for(Index k = 0; k < A.used_elements() * Index(BH * BW); ++k) v.push_back(A.template val<LAFEM::Perspective::pod>()[k]); return v; };
+      std::vector<DT> vb = vals();
+      std::string cfg = str(rows) + "x" + str(cols) + " b" + str(Index(BH)) + "x" + str(Index(BW)) + " [" + pat_str(p) + "]";
+      mv_cases<DT>("bcsr", cfg, A, D, rows * BH, cols * BW, true, vb, vals);
+      // blocked-vector interface: r, y blocked by BH; x blocked by BW (plain) -- compare against the same dense oracle
+      for(int tr = 0; tr < 2; ++tr) for(int alias = 0; alias < 2; ++alias)
+      {
+        std::string cn = "bcsr-blockedvec " + cfg + (tr ? " T" : " N") + (alias ? " r==y" : " r!=y");
+        if(!H<DT>::want(cn)) continue;
+        H<DT>::begin(cn, "{\"format\":\"bcsr\",\"vectors\":\"blocked\"}");
+        DT alpha = H<DT>::var("alpha", 0.75);
+        bool ab = false;
+        if(!tr)
+        {
+          LAFEM::DenseVectorBlocked<DT, Index, BW> x(cols); LAFEM::DenseVectorBlocked<DT, Index, BH> y(rows), rr(rows);
+          std::vector<DT> xb, yb;
+          for(Index i = 0; i < cols * BW; ++i) { DT v = H<DT>::var("x" + str(i), 0.5 + 0.375 * double(i)); x.template elements<LAFEM::Perspective::pod>()[i] = v; xb.push_back(v); }
+          for(Index i = 0; i < rows * BH; ++i) { DT v = H<DT>::var("y" + str(i), -0.25 + 0.625 * double(i)); y.template elements<LAFEM::Perspective::pod>()[i] = v; yb.push_back(v); rr.template elements<LAFEM::Perspective::pod>()[i] = H<DT>::var("rjunk" + str(i), 7.0 + double(i)); }
+          auto& r = alias ? y : rr;
+          ab = aborted([&] { A.apply(r, x, y, alpha); });
+          if(!ab) { std::vector<DT> got; for(Index i = 0; i < rows * BH; ++i) got.push_back(r.template elements<LAFEM::Perspective::pod>()[i]); expect<DT>("r", got, D, false, xb, &yb, alpha); }
+        }
+        else
+        {
+          LAFEM::DenseVectorBlocked<DT, Index, BH> x(rows); LAFEM::DenseVectorBlocked<DT, Index, BW> y(cols), rr(cols);
+          std::vector<DT> xb, yb;
+          for(Index i = 0; i < rows * BH; ++i) { DT v = H<DT>::var("x" + str(i), 0.5 + 0.375 * double(i)); x.template elements<LAFEM::Perspective::pod>()[i] = v; xb.push_back(v); }
+          for(Index i = 0; i < cols * BW; ++i) { DT v = H<DT>::var("y" + str(i), -0.25 + 0.625 * double(i)); y.template elements<LAFEM::Perspective::pod>()[i] = v; yb.push_back(v); rr.template elements<LAFEM::Perspective::pod>()[i] = H<DT>::var("rjunk" + str(i), 7.0 + double(i)); }
+          auto& r = alias ? y : rr;
+          ab = aborted([&] { A.apply_transposed(r, x, y, alpha); });
+          if(!ab) { std::vector<DT> got; for(Index i = 0; i < cols * BW; ++i) got.push_back(r.template elements<LAFEM::Perspective::pod>()[i]); expect<DT>("r", got, D, true, xb, &yb, alpha); }
+        }
+        H<DT>::fact("no abort on valid input", !ab, "XASSERT/XABORT reached");
+        H<DT>::end();
+      }
+    }
+}
+
+template<typename DT>
+void run_cscr()
+{
+  typedef LAFEM::SparseMatrixCSCR<DT, Index> MT;
+  for(Index rows = 0; rows <= Index(g_maxdim); ++rows) for(Index cols = 0; cols <= Index(g_maxdim); ++cols)
+    for(auto& p : all_patterns(rows, cols, Index(g_maxnnz)))
+    {
+      Dense<DT> D; MT A = make_cscr<DT, Index, MT>(rows, cols, p, "a", &D);
+      auto vals = [&] { std::vector<DT> v; for(Index k = 0; k < A.used_elements(); ++k) v.push_back(A.val()[k]); return v; };
+      std::vector<DT> vb = vals();
+      mv_cases<DT>("cscr", str(rows) + "x" + str(cols) + " [" + pat_str(p) + "]", A, D, rows, cols, true, vb, vals);
+    }
+}
+
+template<typename DT>
+void run_banded()
+{
+  typedef LAFEM::SparseMatrixBanded<DT, Index> MT;
+  for(Index rows = 1; rows <= Index(g_maxdim) + 1; ++rows) for(Index cols = 1; cols <= Index(g_maxdim) + 1; ++cols)
+  {
+    Index nd = rows + cols - 1;
+    for(unsigned m = 1; m < (1u << nd); ++m)
+    {
+      if(__builtin_popcount(m) > 3) continue;
+      std::vector<Index> offs; for(Index o = 0; o < nd; ++o) if(m >> o & 1) offs.push_back(o);
+      Dense<DT> D; MT A = make_banded<DT, Index, MT>(rows, cols, offs, "a", &D);
+      auto vals = [&] { std::vector<DT> v; for(Index k = 0; k < rows * Index(offs.size()); ++k) v.push_back(A.val()[k]); return v; };
+      std::vector<DT> vb = vals();
+      // apply_transposed of the banded format aborts with "not implemented" in the generic backend: the format does not offer it
+      mv_cases<DT>("banded", str(rows) + "x" + str(cols) + " offs[" + join(offs) + "]", A, D, rows, cols, false, vb, vals);
+    }
+  }
+}
+
+template<typename DT>
+void run_dense()
+{
+  typedef LAFEM::DenseMatrix<DT, Index> MT;
+  for(Index rows = 1; rows <= Index(g_maxdim) + 1; ++rows) for(Index cols = 1; cols <= Index(g_maxdim) + 1; ++cols)
+  {
+    MT A(rows, cols); Dense<DT> D = dense_zero<DT>(rows, cols);
+    for(Index i = 0; i < rows; ++i) for(Index j = 0; j < cols; ++j) { DT v = H<DT>::var("a" + str(i * cols + j), 1.25 - 0.4375 * double(i * cols + j)); A(i, j, v); D[i][j] = v; }
+    auto vals = [&] { std::vector<DT> v; for(Index k = 0; k < rows * cols; ++k) v.push_back(A.elements()[k]); return v; };
+    std::vector<DT> vb = vals();
+    mv_cases<DT>("dense", str(rows) + "x" + str(cols), A, D, rows, cols, true, vb, vals);
+  }
+}
+
+// CSR matrix applied to blocked vectors (csrsb kernel): every block component is multiplied by the scalar entry
+template<typename DT, int BS>
+void run_csrsb()
+{
+  for(Index rows = 0; rows <= Index(g_maxdim); ++rows) for(Index cols = 0; cols <= Index(g_maxdim); ++cols)
+    for(auto& p : all_patterns(rows, cols, Index(g_maxnnz)))
+    {
+      Dense<DT> D; auto A = make_csr<DT, Index>(rows, cols, p, "a", &D);
+      for(int form = 0; form < 3; ++form) // 0: r=Ax, 1: r=y+aAx r!=y, 2: r==y
+      {
+        std::string cn = "csrsb b" + str(Index(BS)) + " " + str(rows) + "x" + str(cols) + " [" + pat_str(p) + "] form" + str(Index(form));
+        if(!H<DT>::want(cn)) continue;
+        H<DT>::begin(cn, "{\"format\":\"csr\",\"vectors\":\"blocked\"}");
+        DT alpha = H<DT>::var("alpha", 0.75);
+        LAFEM::DenseVectorBlocked<DT, Index, BS> x(cols), y(rows), rr(rows);
+        std::vector<DT> xb, yb;
+        for(Index i = 0; i < cols * BS; ++i) { DT v = H<DT>::var("x" + str(i), 0.5 + 0.375 * double(i)); x.template elements<LAFEM::Perspective::pod>()[i] = v; xb.push_back(v); }
+        for(Index i = 0; i < rows * BS; ++i) { DT v = H<DT>::var("y" + str(i), -0.25 + 0.625 * double(i)); y.template elements<LAFEM::Perspective::pod>()[i] = v; yb.push_back(v); rr.template elements<LAFEM::Perspective::pod>()[i] = H<DT>::var("rjunk" + str(i), 7.0 + double(i)); }
+        auto& r = (form == 2) ? y : rr;
+        bool ab = aborted([&] { if(form == 0) A.apply(r, x); else A.apply(r, x, y, alpha); });
+        H<DT>::fact("no abort on valid input", !ab, "XASSERT/XABORT reached");
+        if(!ab) for(Index i = 0; i < rows; ++i) for(int c = 0; c < BS; ++c)
+        {
+          DT s = DT(0); for(Index j = 0; j < cols; ++j) s += D[i][j] * xb[j * BS + Index(c)];
+          DT e = (form == 0) ? s : DT(yb[i * BS + Index(c)] + alpha * s);
+          H<DT>::eq("r[" + str(i) + "." + str(Index(c)) + "]", r.template elements<LAFEM::Perspective::pod>()[i * BS + Index(c)], e);
+        }
+        H<DT>::end();
+      }
+    }
+}
+
 template<typename DT>
 void run_all(int argc, char** argv)
 {
   (void)argc; (void)argv;
   run_csr<DT, Index>();
+  run_bcsr<DT, 2, 2>(); run_bcsr<DT, 2, 3>(); run_bcsr<DT, 3, 2>();
+  run_cscr<DT>(); run_banded<DT>(); run_dense<DT>();
+  run_csrsb<DT, 2>(); run_csrsb<DT, 3>();
 }
 
 int main(int argc, char** argv)
